@@ -1,6 +1,7 @@
 """Extras: behaviour specified beyond the 20 listed properties (not in MANIFEST.checks).
    X01 string helpers (StrUtil.tla)   X02 GetClientIP (ClientIP.tla)   X03 FirstIP/LastIP (IpRange.tla)
-   X04 Nano handler line format (NanoLine.tla, scenarios from JsonLineMC)   X05 ResponseWriter / reply helpers (HttpHelpers.tla)"""
+   X04 Nano handler line format (NanoLine.tla, scenarios from JsonLineMC)   X05 ResponseWriter / reply helpers (HttpHelpers.tla)
+   X06 Logger front end (LogFront.tla)   X07 config value texts + usage (ValueLit.tla)   X08 ReadRand, ansi texts, SliceContain (Misc.tla)"""
 import json
 import vlib
 from vlib import judge
@@ -35,6 +36,27 @@ def run(ctx, which):
         rows = vlib.read_ndjson(out)
         bad, _, _ = judge(ctx, "httpd", "HttpHelpers", rows, nshards=1, workers=4, timeout=600)
         what = lambda c: "calls %s: Status=%d, client status %d" % ([(x["h"], x["code"]) for x in c["calls"]], c["status"], c["wire"])
+    elif which == "X07":
+        ctx.run([hb, "-mode", "values", "-maxlen", "3" if q else "4", "-out", out], timeout=900)
+        rows = vlib.read_ndjson(out)
+        bad, _, _ = judge(ctx, "config", "ValueLit", rows, per_shard=3000, workers=1, timeout=900)
+        def what(c):
+            if c["kind"] == "lit":
+                return "%s value text %r: command line ok=%s v=%d, environment ok=%s v=%d, tag default ok=%s v=%d" % (
+                    c["ty"], bytes(c["s"]).decode("latin1"), c["argok"], c["argv"], c["envok"], c["envv"], c["defok"], c["defv"])
+            return "usage text %r for flags %s" % (bytes(c["out"]).decode("latin1"), [bytes(f["name"]).decode("latin1") for f in c["flags"]])
+    elif which == "X08":
+        ctx.run([hb, "-mode", "misc", "-out", out], timeout=300)
+        rows = vlib.read_ndjson(out)
+        bad, _, _ = judge(ctx, "misc", "Misc", rows, nshards=1, workers=4, timeout=600)
+        what = lambda c: "%s: %s" % (c["kind"], json.dumps({k: v for k, v in c.items() if k != "kind"})[:300])
+    elif which == "X06":
+        ctx.run([hb, "-mode", "front", "-out", out], timeout=600)
+        rows = vlib.read_ndjson(out)
+        bad, _, _ = judge(ctx, "logger", "LogFront", rows, per_shard=4000, workers=1, timeout=900)
+        what = lambda c: "%s(level %d) on a logger at level %d with(%s) args(%s): %d writes, label %r/%r, attrs %s, panicked=%s exit=%d" % (
+            c["m"], c["l"], c["min"], "".join(a["t"] for a in c["with"]), "".join(a["t"] for a in c["args"]), c["writes"], c["jlabel"], c["nlabel"],
+            [(a["k"], a["v"]) for a in c["attrs"]], c["panicked"], c["exit"])
     else:
         g = ctx.tlc("logger", "JsonLineMC", p_c01.mc_cfg(2, 1, export=True), workers=8, timeout=1800, xmx="8g", tag="scenarios (chains x forests)")
         scen = [j for j in g.json if isinstance(j, dict) and "chain" in j]
